@@ -54,4 +54,36 @@ theorem compact_pretty_same (kind name vt : Str) (m : SelMap)
   have := hj []
   simpa [jsSingleQuotedSimple] using this
 
+/-- a text whose only backslashes are the printer's line continuations and that has no apostrophe
+is embedded as it is -/
+theorem escapeJsBody_of_simple (s : Str) : ∀ t, jsSingleQuotedSimple s = some t → escapeJsBody s = s := by
+  fun_induction jsSingleQuotedSimple s with
+  | case1 => intro t _; rfl
+  | case2 rest ih =>
+    intro t h
+    simp only [escapeJsBody]
+    rw [ih t h]
+  | case3 c rest hne hc =>
+    intro t h
+    simp at h
+  | case4 c rest hne hc ih =>
+    intro t h
+    cases hr : jsSingleQuotedSimple rest with
+    | none => simp [hr] at h
+    | some t' =>
+      have hrec := ih t' hr
+      have h92 : c ≠ 92 := by intro hx; subst hx; simp at hc
+      have h39 : c ≠ 39 := by intro hx; subst hx; simp at hc
+      unfold escapeJsBody
+      all_goals simp_all
+
+/-- `compact_pretty_same` for the text as it is embedded in query_text.ts -/
+theorem compact_embedded_same (kind name vt : Str) (m : SelMap)
+    (hk : isPlain kind = true) (hn : isPlain name = true) (hv : isPlain vt = true)
+    (hm : Tree.plainList (queryTree m) = true) :
+    ∃ t, jsSingleQuotedSimple (escapeJsBody (printQueryCore .pretty kind name vt m)) = some t ∧
+      stripInsignificant t = stripInsignificant (printQueryCore .compact kind name vt m) := by
+  obtain ⟨t, h1, h2⟩ := compact_pretty_same kind name vt m hk hn hv hm
+  exact ⟨t, by rw [escapeJsBody_of_simple _ t h1]; exact h1, h2⟩
+
 end IsoVerif.Core
